@@ -41,7 +41,11 @@ def build(desc, data=None):
     """desc: {"kind": "P"|"B"|"F"|"I"|"FI", "shape": [...], "grids": [...], "axes": name}"""
     shape = tuple(desc["shape"])
     if data is None:
-        data = torch.ones(shape)
+        # distinct, exactly representable values: the real run of a program carries recognisable data
+        n = 1
+        for k in shape:
+            n *= k
+        data = (torch.arange(n, dtype=torch.float32).reshape(shape) % 251.0 + 1.0) / 8.0 + float(desc.get("grids", [0])[0] if desc.get("grids") else 0)
     k = desc["kind"]
     if k == "P":
         return data
@@ -510,6 +514,57 @@ def oracle(op, operands, obs):
     return out
 
 
+def to_world(data, grid, axes):
+    """reference conversion of flow vectors (D, ...X) of one item to world units (grids with identity direction)"""
+    D = grid.ndim
+    spacing = grid.spacing().to(data.dtype)                 # (x, y, ...)
+    size = torch.tensor(list(grid.size()), dtype=data.dtype)  # (x, y, ...)
+    if axes is Axes.WORLD:
+        scale = torch.ones(D, dtype=data.dtype)
+    elif axes is Axes.GRID:
+        scale = spacing
+    elif axes is Axes.CUBE:
+        scale = spacing * size / 2
+    else:
+        scale = spacing * (size - 1) / 2
+    return data * scale.reshape((D,) + (1,) * D)
+
+
+def value_oracle(op, operands, before, real):
+    """checks that need the real data: copies reproduce the data (also of views), joined flow fields are expressed in the
+    axes the result reports"""
+    out = []
+    site = site_of(op, operands)
+    name = op_name(op)
+    k = op["op"]
+    if k == "copy" and isinstance(real[0], Tensor) and before[0] is not None:
+        r = plain(real[0])
+        if r.shape == before[0].shape and not tensors_same(r, before[0]):
+            n = int((r != before[0]).sum())
+            view = "a view with storage offset %d" % operands[0].storage_offset() if operands[0].storage_offset() else "not a view"
+            out.append((f"C19:{site}:{name}:data-not-preserved", f"{op['fn']} changed {n} of {r.numel()} values (the copied value is {view})"))
+    if k == "append" and all(isinstance(x, FlowFields) for x in operands[:2]) and isinstance(real[0], FlowFields):
+        a, b, r = operands[0], operands[1], real[0]
+        if len(r.grids()) == r.shape[0] == a.shape[0] + b.shape[0]:
+            want = [to_world(before[0][i], a.grids()[i], a.axes()) for i in range(a.shape[0])] \
+                + [to_world(before[1][i], b.grids()[i], b.axes()) for i in range(b.shape[0])]
+            got = [to_world(plain(r)[i], r.grids()[i], r.axes()) for i in range(r.shape[0])]
+            for i, (w, g) in enumerate(zip(want, got)):
+                if w.shape != g.shape or not torch.allclose(w, g, rtol=1e-4, atol=1e-5):
+                    out.append((f"C19:{site}:{name}:vectors-not-in-reported-axes",
+                                f"entry {i} of the result (axes {AXES_NAME.get(r.axes())}) is not the appended flow field converted to these axes: "
+                                f"world-unit vectors differ by {float((w - g).abs().max()) if w.shape == g.shape else 'shape'} "
+                                f"(batch axes {AXES_NAME.get(a.axes())}, appended axes {AXES_NAME.get(b.axes())})"))
+                    break
+    return out
+
+
+def tensors_same(a, b):
+    if a.is_floating_point():
+        return bool(torch.all((a == b) | (torch.isnan(a) & torch.isnan(b))))
+    return bool(torch.equal(a, b))
+
+
 def run_case(case):
     cur = build(case["cur"])
     inputs = [build(d) for d in case.get("inputs", [])]
@@ -517,7 +572,18 @@ def run_case(case):
     viols = []
     for si, st in enumerate(case["steps"]):
         operands = [cur if r == "cur" else inputs[r] for r in st["args"]]
+        before = [plain(x).detach().clone() if isinstance(x, Tensor) else None for x in operands]
         obs, outs = run_step(st["op"], operands)
+        # the real run: the actual values (views into earlier storage, real vectors) go through the same operation
+        real = None
+        if outs is not None:
+            try:
+                _, real = outputs_of(apply(st["op"], operands))
+            except Exception as e:  # noqa
+                obs["real_run_raised"] = f"{type(e).__name__}: {str(e)[:100]}"
+            if real is not None and all(wellformed(x) for x in operands):
+                for key, what in value_oracle(st["op"], operands, before, real):
+                    viols.append({"key": key, "what": what, "step": si})
         # the property is evaluated on steps whose operands are well described; the consequences of an
         # earlier violation (a value with the wrong number of grids) are not reported a second time
         if all(wellformed(x) for x in operands):
@@ -531,7 +597,14 @@ def run_case(case):
         k = st.get("pick", 0)
         if k >= len(outs) or not isinstance(outs[k], Tensor):
             break
-        cur = outs[k]
+        # continue with the real value when it has the type / shape the probe run predicted (it always should)
+        if real is not None and k < len(real) and isinstance(real[k], Tensor) and describe(real[k]) == {kk: v for kk, v in obs["outs"][k].items() if kk != "src"}:
+            cur = real[k]
+        else:
+            if real is not None:
+                viols.append({"key": f"C19:{site_of(st['op'], operands)}:{op_name(st['op'])}:result-depends-on-data",
+                              "what": "type / shape / grids of the result differ between two runs with different data", "step": si})
+            cur = outs[k]
     return {"steps": steps_out, "violations": viols}
 
 
